@@ -62,6 +62,9 @@ func (o *Oracle) CallPositions(src engine.Value, S, T types.Type, path []PElem, 
 	if _, ok := o.Spec.Enums[pairKey(S, T)]; ok {
 		return
 	}
+	if o.Spec.SkipCopy && types.Identical(S, T) {
+		return // passed through unchanged: no custom function further inside is consulted
+	}
 	su, tu := S.Underlying(), T.Underlying()
 	if sp, ok := su.(*types.Pointer); ok {
 		p := src.(engine.Pointer)
